@@ -9,9 +9,16 @@ MAX_EVENTS = 30000
 GEN_EVENTS = 9000          # generated cases are kept below this many expected events
 
 COQ_FILES = ["C04/Model.v", "C04/Spec.v", "C04/Check.v", "C04/Lists.v", "C04/Arith.v", "C04/Sides.v", "C04/Proofs.v",
-             "C04/Corollaries.v", "C04/Batches.v", "C04/Bounds.v", "C04/Loader.v", "C04/Passes.v", "C04/Example.v"]
+             "C04/Corollaries.v", "C04/Batches.v", "C04/Bounds.v", "C04/Order.v", "C04/Loader.v", "C04/Passes.v",
+             "C04/Example.v"]
 
 TRUSTED = [
+    "object histories: the harness runs the real InterleavedSampler objects through construction / iteration "
+    "histories on shared main-sampler and config objects (re-iteration, abandoned iterations, other schedulers on "
+    "the same objects, foreign set_epoch calls) and compares every iteration with the model of a fresh "
+    "configuration; concurrently live iterations of schedulers sharing sampler objects are not exercised",
+    "recording samplers log set_epoch and __iter__ calls; lazy (generator) and eager (order fixed in __iter__) "
+    "flavours and torch's DistributedSampler(shuffle=True, num_replicas=1) as main sampler",
     "hand-written model coq/C04/Model.v of InterleavedSampler (__init__ with all assertions, checkpoint derivation, "
     "index_offsets, __iter__, _eval_loop, _training_loop incl. its batch-size adjustment branches, batch sampler, "
     "concat-dataset lookup, collator dispatch); tied to /repo by this run's correspondence evaluation",
@@ -29,11 +36,31 @@ TRUSTED = [
 # ---------------------------------------------------------------------------
 # case generation
 # ---------------------------------------------------------------------------
+_TORCH_REF = {}
+
+
 def main_iter(case, e):
+    """what the main sampler object yields when it is iterated while holding epoch e (None = it was never told
+    an epoch)"""
     n, ds = case["N"], case["dsN"]
+    if case.get("main_kind") == "torch":
+        # torch's own DistributedSampler(shuffle=True): the reference order comes from a second instance
+        key = (ds, case["perm_seed"])
+        if key not in _TORCH_REF:
+            from torch.utils.data.distributed import DistributedSampler
+            if len(_TORCH_REF) > 64:
+                _TORCH_REF.clear()
+            _TORCH_REF[key] = (DistributedSampler(_DS(0, ds), num_replicas=1, rank=0, shuffle=True,
+                                                  seed=case["perm_seed"]), {})
+        ref, cache = _TORCH_REF[key]
+        e = 0 if e is None else e
+        if e not in cache:
+            ref.set_epoch(e)
+            cache[e] = [int(i) for i in ref]
+        return list(cache[e])
     if case["perm_seed"] is None:
         return list(range(n))
-    r = random.Random(case["perm_seed"] * 7919 + e)
+    r = random.Random(case["perm_seed"] * 7919 + (e if e is not None else -4711))
     return r.sample(range(ds), n)
 
 
@@ -143,7 +170,107 @@ def gen_case(rng, big=False, size=None):
                 case["start"] = ["update", k * upe + extra]
             else:
                 case["start"] = ["sample", (k * upe + extra) * b]
+    add_flavours(rng, case)
     return case
+
+
+# ---- sampler flavours and object histories -------------------------------------------------------
+def add_flavours(rng, case):
+    """the main / side sampler objects come as lazy generators (the epoch / order is read when the first index is
+    pulled) or EAGER (__iter__ fixes the whole order at once from what the object holds at that moment), a few
+    mains are torch's own DistributedSampler(shuffle=True); the main sampler object may hold an epoch of its own
+    before the scheduler ever touches it"""
+    r = rng.random()
+    case["main_kind"] = "lazy" if r < 0.45 else "eager" if r < 0.95 else "torch"
+    case["pre_epoch"] = rng.choice([None, None, 0, 1, 2, 5, 9])
+    if case["main_kind"] == "torch":
+        case["dsN"] = case["N"]          # num_replicas=1: len(sampler) = len(dataset)
+        if case["perm_seed"] is None:
+            case["perm_seed"] = rng.randint(0, 999)
+        case["pre_epoch"] = case["pre_epoch"] or 0
+    for sc in case["sides"]:
+        sc["eager"] = rng.random() < 0.4
+
+
+def gen_other(rng, case):
+    """another InterleavedSampler on the same main sampler / config objects: own batch size, drop_last, budget
+    (often eval-only), sometimes a checkpoint, sometimes only some of the configs (in any order)"""
+    n = case["N"]
+    for _ in range(30):
+        b = rng.choice([1, n, max(1, n // 2), rng.randint(1, n), rng.randint(1, n)])
+        drop_last = rng.random() < 0.6
+        d = None
+        if drop_last and rng.random() < 0.25:
+            d = b * rng.choice([m for m in (1, 2, 3) if b * m <= n])
+        o = {"B": b, "drop_last": drop_last, "D": d, "start": None, "sel": None}
+        spe, upe = geometry({"N": n, **o})
+        kind = rng.choice(["epochs", "updates", "samples"])
+        e = rng.choice([1, 1, 2, 3])
+        if rng.random() < 0.3:
+            val = 0
+        elif kind == "epochs":
+            val = e
+        elif kind == "updates":
+            val = max(1, upe * e + rng.choice([0, 0, -1, 1]))
+        else:
+            val = max(1, spe * e + rng.choice([0, 0, -1, 1, b]))
+        o["budget"] = [kind, val]
+        if kind == "epochs" and val >= 2 and rng.random() < 0.4:
+            o["start"] = ["epoch", rng.randint(1, val - 1)]
+        if case["sides"] and rng.random() < 0.25:
+            o["sel"] = rng.sample(range(len(case["sides"])), rng.randint(0, len(case["sides"])))
+        tmp = dict(case)
+        tmp["others"] = [o]
+        if expected_events(obj_case(tmp, 1)) <= 2500:
+            return o
+    return {"B": n, "drop_last": True, "D": None, "start": None, "sel": None, "budget": ["epochs", 1]}
+
+
+def add_history(rng, case):
+    """objects have histories: the case's InterleavedSampler is iterated (completely, or abandoned after some
+    items) before its observed iteration, other InterleavedSamplers are built on the same main sampler and config
+    objects and iterated before / in between, somebody calls set_epoch on the main sampler"""
+    others = [gen_other(rng, case) for _ in range(rng.choice([0, 1, 1, 1, 2]))]
+    case["others"] = others
+    unbuilt = list(range(len(others) + 1))
+    rng.shuffle(unbuilt)
+    actions = ["build"] * len(unbuilt) + ["iter"] * rng.choice([0, 1, 1, 2, 3]) + ["set_epoch"] * rng.choice([0, 0, 1, 2])
+    rng.shuffle(actions)
+    steps, built = [], []
+    for a in actions:
+        if a == "build" or (a == "iter" and not built):
+            if unbuilt:
+                j = unbuilt.pop()
+                steps.append(["build", j])
+                built.append(j)
+            if a == "build":
+                continue
+        if a == "iter":
+            steps.append(["iter", rng.choice(built), None if rng.random() < 0.5 else rng.randint(1, 40)])
+        elif a == "set_epoch":
+            steps.append(["set_epoch", rng.choice([0, 1, 2, 3, 5, 11])])
+    for j in unbuilt:
+        steps.append(["build", j])
+    if rng.random() < 0.25:
+        steps.append(["set_epoch", rng.choice([0, 1, 2, 3, 5, 11])])
+    steps.append(["iter", 0, None])
+    case["scenario"] = steps
+    assert scenario_ok(case), steps
+    return case
+
+
+def gen_history_case(rng, want=None, size="small"):
+    """a case with a non-trivial history; want(case) may filter the underlying configuration"""
+    for _ in range(400):
+        c = gen_case(rng, size=size)
+        if expected_events(c) > 3000 or (want is not None and not want(c)):
+            continue
+        if isinstance(start_epoch_of(c), str):
+            continue        # the history is about objects the constructor accepts
+        add_history(rng, c)
+        if len(c["scenario"]) > 2:
+            return c
+    return add_history(rng, gen_bounded(rng))
 
 
 def gen_bounded(rng, **kw):
@@ -263,7 +390,42 @@ def gen_cases(rng, tier):
 
 def search_cases(rng, tier):
     for _ in range(20000):
-        yield gen_bounded(rng, size="mid" if rng.random() < 0.3 else "small")
+        if rng.random() < 0.3:
+            yield gen_history_case(rng)
+        else:
+            yield gen_bounded(rng, size="mid" if rng.random() < 0.3 else "small")
+
+
+ITEMS = "wrong (is_full_batch, index) items: "
+
+
+def items_tag(a, b):
+    """prefix of a violation message: do the yielded items differ, or only the calls the samplers received"""
+    ya = [e for e in a if not isinstance(e, list) or not e or e[0] not in ("E", "I", "S")]
+    yb = [e for e in b if not isinstance(e, list) or not e or e[0] not in ("E", "I", "S")]
+    return ITEMS if ya != yb else ""
+
+
+def shrink_keeping(oracle, run):
+    """shrinker that keeps the strong kind of violation: a case whose yielded items are wrong is only shrunk to
+    cases whose yielded items are wrong (not to one where merely a call arrives at another moment)"""
+    def sh(case):
+        try:
+            m = oracle(case, run(case))
+        except Exception:  # noqa
+            m = None
+        strong = bool(m) and m.startswith(ITEMS)
+        for cand in shrink(case):
+            if not strong:
+                yield cand
+                continue
+            try:
+                m2 = oracle(cand, run(cand))
+            except Exception:  # noqa
+                continue
+            if m2 and m2.startswith(ITEMS):
+                yield cand
+    return sh
 
 
 def shrink(case):
@@ -272,8 +434,40 @@ def shrink(case):
     for k in ("mut", "post_budget", "loader"):
         if c.get(k) is not None:
             yield {kk: v for kk, v in c.items() if kk != k}
+    # the history: no history at all, fewer steps, fewer other objects, complete instead of abandoned iterations
+    if c.get("scenario"):
+        yield {kk: v for kk, v in c.items() if kk not in ("scenario", "others")}
+        sc = c["scenario"]
+        for i in range(len(sc) - 1):
+            cand = sc[:i] + sc[i + 1:]
+            if scenario_ok(c, cand):
+                yield {**c, "scenario": cand}
+        for j in range(1, len(c.get("others") or []) + 1):
+            # drop object j (and renumber the later ones)
+            cand = [[st[0], st[1] - 1 if (st[0] != "set_epoch" and st[1] > j) else st[1]] + st[2:]
+                    for st in sc if st[0] == "set_epoch" or st[1] != j]
+            c2 = {**c, "others": c["others"][:j - 1] + c["others"][j:], "scenario": cand}
+            if scenario_ok(c2):
+                yield c2
+        for i, st in enumerate(sc[:-1]):
+            if st[0] == "iter" and st[2] is not None:
+                yield {**c, "scenario": sc[:i] + [["iter", st[1], None]] + sc[i + 1:]}
+        for j, o in enumerate(c.get("others") or []):
+            if o.get("sel") is not None:
+                yield {**c, "others": c["others"][:j] + [{**o, "sel": None}] + c["others"][j + 1:]}
+            if o.get("start") is not None:
+                yield {**c, "others": c["others"][:j] + [{**o, "start": None}] + c["others"][j + 1:]}
+    if c.get("main_kind") == "torch":
+        yield {**c, "main_kind": "eager"}
+    if c.get("main_kind") == "eager":
+        yield {**c, "main_kind": "lazy"}
+    if c.get("pre_epoch") is not None and c.get("main_kind") != "torch":
+        yield {**c, "pre_epoch": None}
+    for i, sc_ in enumerate(c["sides"]):
+        if sc_.get("eager"):
+            yield {**c, "sides": c["sides"][:i] + [{**sc_, "eager": False}] + c["sides"][i + 1:]}
     for i in range(len(c["sides"])):
-        if c.get("mut") and c["mut"][0] == "sides":
+        if (c.get("mut") and c["mut"][0] == "sides") or any(o.get("sel") is not None for o in c.get("others") or []):
             break
         yield {**c, "sides": c["sides"][:i] + c["sides"][i + 1:]}
     for i, sc in enumerate(c["sides"]):
@@ -327,69 +521,222 @@ class _TagCollator:
         return [self.tag, [list(x) for x in data]]
 
 
+class _World:
+    """where the recording samplers write to: the log of the step that is being executed (an iteration of one of
+    the InterleavedSampler objects, or `outside`: constructions and foreign calls)"""
+
+    def __init__(self):
+        self.outside = []
+        self.log = self.outside
+        self.plog = []
+
+
 class _RecMain:
-    def __init__(self, case, raw, log):
-        self.case, self.log, self.n = case, log, raw["N"]
+    """recording main sampler; its order depends on the epoch it HOLDS (the last set_epoch).  Two flavours, both
+    common in practice: lazy (a generator: the epoch is read when the first index is pulled - all kappadata
+    samplers) and eager (__iter__ fixes the whole epoch's order at once from the epoch held at that moment and
+    returns iter(list) - torch's DistributedSampler).  Every set_epoch and every __iter__ call is logged."""
+
+    def __init__(self, case, raw, world):
+        self.case, self.world, self.n = case, world, raw["N"]
         self.data_source = _DS(0, raw["dsN"])
-        self.epoch = None
+        self.eager = case.get("main_kind") == "eager"
+        self.epoch = case.get("pre_epoch")
 
     def __len__(self):
         return self.n
 
     def set_epoch(self, e):
-        self.log.append(["E", e])
+        self.world.log.append(["E", e])
         self.epoch = e
 
     def __iter__(self):
+        self.world.log.append(["I", self.epoch])
+        if self.eager:
+            return iter(main_iter(self.case, self.epoch))
+        return self._gen()
+
+    def _gen(self):
         yield from main_iter(self.case, self.epoch)
+
+
+def _torch_main(case, raw, world):
+    from torch.utils.data.distributed import DistributedSampler
+
+    class _RecTorchMain(DistributedSampler):
+        """torch's DistributedSampler(shuffle=True) itself (order fixed eagerly in __iter__ from self.epoch)"""
+
+        def set_epoch(self, e):
+            world.log.append(["E", int(e)])
+            super().set_epoch(e)
+
+        def __iter__(self):
+            world.log.append(["I", int(self.epoch)])
+            return super().__iter__()
+
+    m = _RecTorchMain(_DS(0, raw["dsN"]), num_replicas=1, rank=0, shuffle=True, seed=case["perm_seed"])
+    m.epoch = case.get("pre_epoch") or 0
+    return m
 
 
 class _Side:
     """recording side sampler; its order may change with every iteration (pass counter = the object's state,
-    starting at p0); it offers set_epoch and logs any call of it"""
+    starting at p0); lazy (generator) or eager (order fixed in __iter__) like the main sampler; it offers
+    set_epoch and logs any call of it"""
 
-    def __init__(self, tag, sc, p0, log, plog):
+    def __init__(self, tag, sc, p0, world):
         # _get_data_source accepts either attribute name
         if tag % 2:
             self.data_source = _DS(tag, sc["dslen"])
         else:
             self.dataset = _DS(tag, sc["dslen"])
-        self.tag, self.sc, self.p, self.log, self.plog = tag, sc, p0, log, plog
+        self.tag, self.sc, self.p, self.world = tag, sc, p0, world
 
     def __len__(self):
         return len(self.sc["idx"])
 
     def set_epoch(self, e):
-        self.log.append(["S", self.tag - 1, e])
+        self.world.log.append(["S", self.tag - 1, e])
 
-    def __iter__(self):
+    def _begin(self):
         p = self.p
         self.p += 1
-        self.plog.append([self.tag - 1, len(self.log)])
-        yield from side_iter(self.sc, p)
+        self.world.plog.append([self.tag - 1, len(self.world.log)])
+        return side_iter(self.sc, p)
+
+    def __iter__(self):
+        if self.sc.get("eager"):
+            return iter(self._begin())
+        return self._gen()
+
+    def _gen(self):
+        yield from self._begin()
+
+
+CFG_FIELDS = ("sampler", "every_n_epochs", "every_n_updates", "every_n_samples", "collator", "batch_size")
+
+
+def obj_case(case, j):
+    """the configuration of InterleavedSampler object j of this case's history: 0 = the case itself, j >= 1 =
+    another InterleavedSampler built on the SAME main sampler object and (a selection of) the SAME config
+    objects, with its own batch size / drop_last / budget / checkpoint"""
+    if j == 0:
+        return case
+    o = case["others"][j - 1]
+    sel = o.get("sel")
+    sides = case["sides"] if sel is None else [case["sides"][i] for i in sel]
+    oc = {k: v for k, v in case.items() if k not in ("mut", "post_budget", "loader", "scenario", "others")}
+    oc.update({"B": o["B"], "drop_last": o["drop_last"], "D": o["D"], "budget": list(o["budget"]),
+               "start": o.get("start"), "sides": sides})
+    return oc
+
+
+def default_scenario():
+    return [["build", 0], ["iter", 0, None]]
+
+
+def scenario_ok(case, sc=None):
+    """every object is built once and before it is iterated; the last step is the full iteration of object 0"""
+    sc = case.get("scenario") if sc is None else sc
+    if not sc or sc[-1] != ["iter", 0, None]:
+        return False
+    built = set()
+    for st in sc:
+        if st[0] == "build":
+            if st[1] in built or not 0 <= st[1] <= len(case.get("others") or []):
+                return False
+            built.add(st[1])
+        elif st[0] == "iter" and st[1] not in built:
+            return False
+    return True
+
+
+class _Objects:
+    """the objects of one case: ONE main sampler object, ONE sampler + config object per side config, and the
+    InterleavedSampler objects built on them"""
+
+    def __init__(self, case, start="case", pass0=None):
+        from kappadata.samplers.interleaved_sampler import InterleavedSamplerConfig
+        self.case, self.start = case, start
+        self.world = _World()
+        raw = raw_args(case, start)
+        self.main = (_torch_main if case.get("main_kind") == "torch" else _RecMain)(case, raw, self.world)
+        pass0 = pass0 or [0] * len(case["sides"])
+        self.side_samplers = [_Side(i + 1, sc, pass0[i], self.world) for i, sc in enumerate(case["sides"])]
+        self.cfgs = [InterleavedSamplerConfig(sampler=sm, every_n_epochs=rs["ene"], every_n_updates=rs["enu"],
+                                              every_n_samples=rs["ens"], batch_size=rs["bs"])
+                     for sm, rs in zip(self.side_samplers, raw["sides"])]
+        self.main_collator = None
+        if case.get("loader") is not None:
+            for i, cf in enumerate(self.cfgs):
+                cf.collator = _TagCollator(i + 1)
+            self.main_collator = _TagCollator(0)
+        self.samplers = {}
+
+    def snapshot(self):
+        return [[(id(v) if k in ("sampler", "collator") and v is not None else v)
+                 for k, v in ((k, getattr(cf, k, "<deleted>")) for k in CFG_FIELDS)] for cf in self.cfgs]
+
+    def held(self):
+        e = self.main.epoch
+        return None if e is None else int(e)
+
+    def passes(self):
+        return [sm.p for sm in self.side_samplers]
+
+    def construct(self, j):
+        from kappadata.samplers.interleaved_sampler import InterleavedSampler
+        oc = obj_case(self.case, j)
+        raw = raw_args(oc, self.start if j == 0 else "case")
+        kw = {k: raw[k] for k in ("epochs", "updates", "samples", "start_epoch", "start_update", "start_sample")
+              if raw[k] is not None}
+        if self.main_collator is not None:
+            kw["main_collator"] = self.main_collator
+        sel = None if j == 0 else self.case["others"][j - 1].get("sel")
+        cfgs = self.cfgs if sel is None else [self.cfgs[i] for i in sel]
+        self.world.log = self.world.outside
+        s = InterleavedSampler(main_sampler=self.main, batch_size=raw["B"], configs=cfgs or None,
+                               drop_last=raw["drop_last"], drop_last_batch_size=raw["D"], **kw)
+        if j == 0 and self.case.get("post_budget") is not None:
+            # several budgets at once: the constructor refuses them, the loop's end test handles them
+            for k, v in self.case["post_budget"].items():
+                setattr(s, k, v)
+        self.samplers[j] = s
+        return s
+
+    def iterate(self, j, k=None):
+        """one iteration of object j (k = abandon it after k yielded items) -> (result, log, plog)"""
+        w = self.world
+        w.log, w.plog = log, plog = [], []
+        res = "ok"
+        it = None
+        try:
+            it = iter(self.samplers[j])
+            n = 0
+            for full, idx in it:
+                log.append(["Y", bool(full), int(idx)])
+                n += 1
+                if k is not None and n >= k:
+                    break
+                if len(log) > MAX_EVENTS:
+                    res = "RUNAWAY"
+                    break
+        except AssertionError:
+            res = "AssertionError"
+        finally:
+            w.log, w.plog = w.outside, []
+            if it is not None and hasattr(it, "close"):
+                it.close()
+        return res, log, plog
 
 
 def build(case, log, start="case", pass0=None, plog=None):
-    from kappadata.samplers.interleaved_sampler import InterleavedSampler, InterleavedSamplerConfig
-    raw = raw_args(case, start)
-    main = _RecMain(case, raw, log)
-    plog = plog if plog is not None else []
-    pass0 = pass0 or [0] * len(case["sides"])
-    cfgs = [InterleavedSamplerConfig(sampler=_Side(i + 1, sc, pass0[i], log, plog), every_n_epochs=rs["ene"],
-                                     every_n_updates=rs["enu"], every_n_samples=rs["ens"], batch_size=rs["bs"])
-            for i, (sc, rs) in enumerate(zip(case["sides"], raw["sides"]))]
-    kw = {k: raw[k] for k in ("epochs", "updates", "samples", "start_epoch", "start_update", "start_sample")
-          if raw[k] is not None}
-    if case.get("loader") is not None:
-        for i, cf in enumerate(cfgs):
-            cf.collator = _TagCollator(i + 1)
-        kw["main_collator"] = _TagCollator(0)
-    s = InterleavedSampler(main_sampler=main, batch_size=raw["B"], configs=cfgs or None, drop_last=raw["drop_last"],
-                           drop_last_batch_size=raw["D"], **kw)
-    if case.get("post_budget") is not None:
-        # several budgets at once: the constructor refuses them, the loop's end test handles them
-        for k, v in case["post_budget"].items():
-            setattr(s, k, v)
+    """fresh objects, the InterleavedSampler of the case itself; set_epoch / __iter__ calls go to `log`"""
+    ob = _Objects(case, start, pass0)
+    s = ob.construct(0)
+    ob.world.outside = ob.world.log = log
+    if plog is not None:
+        ob.world.plog = plog
     return s
 
 
@@ -406,25 +753,55 @@ def _loader_batches(s, workers):
 
 
 def run_stream(case, start="case", pass0=None):
-    """-> dict(result=ok|NotImplementedError|AssertionError|RUNAWAY, log=[...], resolve=[...], ...)"""
-    log, plog = [], []
-    try:
-        s = build(case, log, start, pass0, plog)
-    except NotImplementedError:
-        return {"result": "NotImplementedError", "log": []}
-    except AssertionError:
-        return {"result": "AssertionError", "log": []}
-    res = "ok"
-    out = {"index_offsets": [int(x) for x in s.index_offsets]}
-    try:
-        for full, idx in s:
-            log.append(["Y", bool(full), int(idx)])
-            if len(log) > MAX_EVENTS:
-                res = "RUNAWAY"
-                break
-    except AssertionError:
-        res = "AssertionError"
-    out.update({"result": res, "log": log, "plog": plog})
+    """runs the case's history (default: construct, iterate once) on one set of objects
+    -> dict(result=ok|NotImplementedError|AssertionError|RUNAWAY, log=[...] of the final iteration of object 0,
+            hist=[earlier iterations], cfg_mutations=[...], pass0 / held0 = state of the shared sampler objects
+            right before the final iteration, resolve=[...], ...)"""
+    scenario = case.get("scenario") or default_scenario()
+    ob = _Objects(case, start, pass0)
+    snap = ob.snapshot()
+    hist, muts = [], []
+    out = {}
+    res, log, plog = "ok", [], []
+
+    def note_mutations(k):
+        nonlocal snap
+        now = ob.snapshot()
+        for ci, (a, b) in enumerate(zip(snap, now)):
+            for f, x, y in zip(CFG_FIELDS, a, b):
+                if x != y:
+                    muts.append([k, scenario[k][0], ci, f, x if f not in ("sampler", "collator") else "<object>",
+                                 y if f not in ("sampler", "collator") else "<other object>"])
+        snap = now
+
+    for k, st in enumerate(scenario):
+        last = k == len(scenario) - 1
+        if st[0] == "build":
+            try:
+                ob.construct(st[1])
+            except (NotImplementedError, AssertionError) as e:
+                if st[1] == 0:
+                    return {"result": type(e).__name__, "log": [], "hist": hist, "cfg_mutations": muts}
+                hist.append({"obj": st[1], "k": None, "result": "ctor:" + type(e).__name__, "log": [],
+                             "pass0": ob.passes(), "held0": ob.held()})
+        elif st[0] == "set_epoch":
+            ob.world.log = ob.world.outside
+            ob.main.set_epoch(st[1])
+        elif st[0] == "iter":
+            if st[1] not in ob.samplers:
+                continue
+            p0, h0 = ob.passes(), ob.held()
+            r, lg, pl = ob.iterate(st[1], st[2])
+            if last:
+                res, log, plog = r, lg, pl
+                out["pass0"], out["held0"] = p0, h0
+            else:
+                hist.append({"obj": st[1], "k": st[2], "result": r, "log": lg, "pass0": p0, "held0": h0})
+        note_mutations(k)
+    s = ob.samplers[0]
+    out.update({"index_offsets": [int(x) for x in s.index_offsets], "result": res, "log": log, "plog": plog,
+                "hist": hist, "cfg_mutations": muts,
+                "outside": [ev for ev in ob.world.outside][:50]})
     if res == "ok":
         # resolution of every distinct yielded index through the real concat dataset
         seen = {}
@@ -436,8 +813,8 @@ def run_stream(case, start="case", pass0=None):
                 except Exception as e:  # noqa
                     seen[ev[2]] = [type(e).__name__]
         out["resolve"] = sorted([k] + v for k, v in seen.items())
-        # the batch sampler on a second, independent iteration
-        s2 = build(case, [], start, pass0)
+        # the batch sampler on a second, independent iteration (fresh objects in the same state)
+        s2 = build(case, [], start, out["pass0"])
         try:
             bs = []
             for b in s2.batch_sampler:
@@ -449,7 +826,7 @@ def run_stream(case, start="case", pass0=None):
             out["batches"] = "AssertionError"
         if case.get("loader") is not None:
             # the real DataLoader (num_workers = case["loader"]) with one tagging collator per dataset
-            out["loader_batches"] = _loader_batches(build(case, [], start, pass0), case["loader"])
+            out["loader_batches"] = _loader_batches(build(case, [], start, out["pass0"]), case["loader"])
     return out
 
 
@@ -469,18 +846,28 @@ def passes_before(fresh, e0, n_sides):
 def run_impl(case):
     if case["start"] is None:
         obs = run_stream(case)
-        obs["pass0"] = [0] * len(case["sides"])
+        obs.setdefault("pass0", [0] * len(case["sides"]))
         return obs
-    # a resumed run: the side sampler objects carry on from the state they have at the checkpoint in the
-    # uninterrupted run (for samplers yielding the same order every time this is immaterial)
-    fresh = run_stream(case, start=None)
+    # a resumed run is compared with the uninterrupted run of the real code on objects of its own; the side
+    # sampler objects of the two runs are in the same state at the checkpoint (for samplers yielding the same
+    # order every time this is immaterial)
+    plain = {k: v for k, v in case.items() if k not in ("scenario", "others")}
+    fresh = run_stream(plain, start=None)
     e0 = start_epoch_of(case)
-    pass0 = None
+    before = None
     if isinstance(e0, int) and fresh["result"] == "ok":
-        pass0 = passes_before(fresh, e0, len(case["sides"]))
-    pass0 = pass0 or [0] * len(case["sides"])
-    obs = run_stream(case, pass0=pass0)
-    obs["pass0"] = pass0
+        before = passes_before(fresh, e0, len(case["sides"]))
+    before = before or [0] * len(case["sides"])
+    if case.get("scenario"):
+        # the resumed object lives in a history; the state its side samplers have when its final iteration starts
+        # decides where the uninterrupted reference has to start
+        obs = run_stream(case)
+        p0 = obs.get("pass0") or [0] * len(case["sides"])
+        if p0 != before and any(sc.get("shuffle") is not None for sc in case["sides"]):
+            fresh = run_stream(plain, start=None, pass0=[a - b for a, b in zip(p0, before)])
+    else:
+        obs = run_stream(case, pass0=before)
+    obs.setdefault("pass0", before)
     if obs["result"] == "ok":
         obs["fresh"] = fresh["log"]
         if case.get("loader") is not None:
@@ -548,6 +935,7 @@ def spec_stream(case, e0, tag=False, pass0=None):
     e = e0
     while True:
         out.append(["E", e, "M"] if tag else ["E", e])
+        out.append(["I", e, "M"] if tag else ["I", e])       # iter(main_sampler) is called with epoch e announced
         bs = chunks(main_iter(case, e)[:spe], case["B"])
         done = 0
         for j, b in enumerate(bs):
@@ -573,6 +961,66 @@ def spec_stream(case, e0, tag=False, pass0=None):
             if len(out) > 4 * MAX_EVENTS:
                 return out
         e += 1
+
+
+def cut_after(stream, k):
+    """the part of a stream an iteration abandoned after k yielded items shows"""
+    if k is None:
+        return stream
+    n = 0
+    for i, ev in enumerate(stream):
+        if ev[0] == "Y":
+            n += 1
+            if n >= k:
+                return stream[:i + 1]
+    return stream
+
+
+def expected_iteration(case, h):
+    """what an earlier iteration h = {obj, k, pass0} of the case's history has to show: an InterleavedSampler has
+    no memory and reads nothing the shared sampler objects held before, so it is the stream of a FRESH object of
+    that configuration (side samplers continuing from their own iteration counts), cut where it was abandoned"""
+    j = h["obj"]
+    oc = obj_case(case, j)
+    e0 = start_epoch_of(oc)
+    if isinstance(e0, str):
+        return None
+    sel = None if j == 0 else case["others"][j - 1].get("sel")
+    p0 = h["pass0"] if sel is None else [h["pass0"][i] for i in sel]
+    return oc, cut_after(spec_stream(oc, e0, pass0=p0), h["k"])
+
+
+def history_violation(case, obs, proj=None, what="stream"):
+    """every earlier iteration of the history, projected by proj(case_of_object, log), against the fresh model"""
+    for n, h in enumerate(obs.get("hist") or []):
+        name = f"history step: iteration of InterleavedSampler object #{h['obj']}" + \
+               (f" (abandoned after {h['k']} items)" if h["k"] is not None else "")
+        if ctor_expect(raw_args(obj_case(case, h["obj"]))) != "ok":
+            continue
+        if h["result"].startswith("ctor:"):
+            return f"history: constructing object #{h['obj']} with valid arguments raised {h['result'][5:]}"
+        if h["result"] != "ok":
+            return f"{name}: {h['result']}"
+        e = expected_iteration(case, h)
+        if e is None:
+            continue
+        oc, exp = e
+        a, b = (exp, h["log"]) if proj is None else (proj(oc, exp), proj(oc, h["log"]))
+        if a != b:
+            k = next((i for i in range(min(len(a), len(b))) if a[i] != b[i]), min(len(a), len(b)))
+            return (items_tag(a, b) + f"{name} (main sampler object held epoch {h['held0']} before, side samplers iterated "
+                    f"{h['pass0']} times): {what} differs from what a fresh object of that configuration yields "
+                    f"at event {k}: expected {a[k:k + 6]} got {b[k:k + 6]} ({len(a)} vs {len(b)} events)")
+    return None
+
+
+def config_mutation_violation(obs):
+    m = obs.get("cfg_mutations")
+    if m:
+        k, op, ci, f, x, y = m[0]
+        return (f"history step {k} ({op}) changed attribute {f!r} of the InterleavedSamplerConfig object #{ci} it "
+                f"was given: {x!r} -> {y!r} (configs are shared between samplers; {len(m)} change(s) in all)")
+    return None
 
 
 def ds_ranges(case):
@@ -638,11 +1086,16 @@ def coq_args(case, obs):
                a_start_sample=Opt(raw["start_sample"]), a_sides=sides)
 
 
+NEVER = -1000003      # rendering of "the sampler object was never told an epoch" inside an observed OIterStart
+
+
 def coq_obs(log):
     out = []
     for ev in log:
         if ev[0] == "E":
             out.append(C("OSetEpoch", ev[1]))
+        elif ev[0] == "I":
+            out.append(C("OIterStart", NEVER if ev[1] is None else ev[1]))
         elif ev[0] == "S":
             out.append(C("OSideSetEpoch", Nat(ev[1]), ev[2]))
         else:
@@ -665,4 +1118,5 @@ def coq_case_common(case, obs):
     lb = obs.get("loader_batches")
     lbt = Opt(None if not isinstance(lb, list) else [(Nat(t), [x[1] for x in items]) for t, items in lb])
     pass0 = [Nat(p) for p in (obs.get("pass0") or [0] * len(case["sides"]))]
-    return (coq_args(case, obs), ovr, pass0, Nat(result), emin, iters, coq_obs(obs["log"]), bat, resolve, offs, lbt)
+    held0 = Opt(obs.get("held0"))
+    return (coq_args(case, obs), ovr, pass0, held0, Nat(result), emin, iters, coq_obs(obs["log"]), bat, resolve, offs, lbt)
